@@ -1,22 +1,37 @@
 (* C08 -- Numeric operators are exact or fail; they never wrap or lose the sign.
-   Only statements here; proofs live in MJ.C08.Proofs.
+   Only statements here; proofs live in MJ.C08.Proofs and MJ.C08.FloatProofs.
 
-   A case is `a OP b` (or `-a`) with each operand given in one of the forms the harness
-   builds: a literal in the template text, or an i64 / u64 / i128 / u128 value.
-   [in_domain f z]: z lies in [-2^127, 2^128), the form can hold it, and it is not the operand
-   of the listed known finding neg-2p127 (the literal -2^127, whose unary minus keeps the
-   sign: pinned by the repository's own snapshot tests/snapshots/test_templates__vm@literals.txt.snap).
-   [known_neg a] (a = 2^127) and [known_pow a b] (|a| <= 1 and b > 2^32-1) describe the other
-   listed inputs.  Of the float leg only the integer/float comparison is modelled and proved here
-   (int_float_cmp_exact); float // and % are decided by the harness oracle only (tools/props/C08.py). *)
+   A case is `a OP b` (or `-a`, or a comparison) with each operand given in one of the forms
+   the harness builds: a literal in the template text, or an i64 / u64 / i128 / u128 value.
+   [in_range f z]: z lies in [-2^127, 2^128) and the form f can hold it.
+   Every integer statement has the shape  forall x, ~ Known x -> ...  where Known is the decidable
+   description ([Spec.known], instantiated as [known_bin] / [known_un] / [known_operand]) of
+   exactly the inputs of the one listed known finding neg-2p127: the unary minus of 2^127, written
+   as `-x` or as the literal -170141183460469231731687303715884105728 used as an operand (its sign
+   is lost; the behaviour is pinned by tests/snapshots/test_templates__vm@literals.txt.snap).
+   [known_characterised] shows that Known holds of nothing else.
+   Of the float leg the integer/float comparison (int_float_cmp_exact, pure integer reasoning, no
+   axioms) and the Euclidean convention of float % and // (euclid_float_remainder,
+   euclid_float_quotient, euclid_float_convention; Flocq binary64 and Coq's Reals with their
+   classical axioms) are proved here. *)
 From MJ Require Import Common.Base C08.Model C08.Spec C08.Proofs.
+From Coq Require Import Reals.
+From Flocq Require Import Core BinarySingleNaN.
+From MJ Require Import C08.FloatModel C08.FloatSpec C08.FloatProofs.
+Local Open Scope Z_scope.
+
+(* Known = exactly the listed inputs *)
+Theorem known_characterised : forall unary fa a fb b,
+  known unary (is_lit fa) a (is_lit fb) b = true <->
+    (fa = FLit /\ a = - 2 ^ 127) \/ (unary = false /\ fb = FLit /\ b = - 2 ^ 127) \/ (unary = true /\ a = 2 ^ 127).
+Proof. exact known_characterised_proof. Qed.
 
 (* + - * // % **: never a crash; an integer answer is the exact result of unbounded
    arithmetic (Euclidean // and %), in a representation that holds it; an error only if an
    operand or the exact result is outside the 128-bit signed range (or there is no integer
    result at all: zero divisor, negative exponent). *)
 Theorem int_op_exact_or_error : forall op fa a fb b,
-  in_domain fa a -> in_domain fb b -> op <> Pow \/ known_pow a b = false ->
+  in_range fa a -> in_range fb b -> known_bin fa a fb b = false ->
   match model_case (Bin op) fa a fb b with
   | Ok v => exact op a b = Some (num_val v) /\ num_ok v = true
   | Err _ => ~ (small a = true /\ small b = true /\ exists r, exact op a b = Some r /\ small r = true)
@@ -25,15 +40,16 @@ Theorem int_op_exact_or_error : forall op fa a fb b,
 Proof. exact exact_or_error_proof. Qed.
 
 (* the outcome (value, result representation, error) depends on the numbers only: not on the
-   form or internal width an operand comes in -- including the ** cases of the known finding *)
+   form or internal width an operand comes in *)
 Theorem width_independent : forall op fa fa' a fb fb' b,
-  in_domain fa a -> in_domain fa' a -> in_domain fb b -> in_domain fb' b ->
+  in_range fa a -> in_range fa' a -> in_range fb b -> in_range fb' b ->
+  known_bin fa a fb b = false -> known_bin fa' a fb' b = false ->
   model_case (Bin op) fa a fb b = model_case (Bin op) fa' a fb' b.
 Proof. exact width_independent_proof. Qed.
 
 (* unary minus: exact or an error, exact whenever a and -a are in the signed range *)
 Theorem neg_exact : forall fa a fb b,
-  in_domain fa a -> known_neg a = false ->
+  in_range fa a -> known_un fa a = false ->
   match model_case Neg fa a fb b with
   | Ok v => num_val v = exact_neg a /\ num_ok v = true
   | Err _ => ~ (small a = true /\ small (exact_neg a) = true)
@@ -41,14 +57,16 @@ Theorem neg_exact : forall fa a fb b,
   end.
 Proof. exact neg_exact_proof. Qed.
 
+(* also for a = 2^127: every form able to hold it shows the same (listed) behaviour *)
 Theorem neg_width_independent : forall fa fa' a fb fb' b b',
-  in_domain fa a -> in_domain fa' a ->
+  in_range fa a -> in_range fa' a ->
+  known_operand (is_lit fa) a = false -> known_operand (is_lit fa') a = false ->
   model_case Neg fa a fb b = model_case Neg fa' a fb' b'.
 Proof. exact neg_width_independent_proof. Qed.
 
 (* // and % agree with each other and with the documented convention *)
 Theorem euclid_int : forall fa a fb b q r,
-  in_domain fa a -> in_domain fb b ->
+  in_range fa a -> in_range fb b -> known_bin fa a fb b = false ->
   model_case (Bin FloorDiv) fa a fb b = Ok q -> model_case (Bin Rem) fa a fb b = Ok r ->
   b <> 0 /\ num_val q * b + num_val r = a /\ 0 <= num_val r < Z.abs b.
 Proof. exact euclid_int_proof. Qed.
@@ -64,7 +82,8 @@ Qed.
 
 (* the remainder by a non-zero divisor never fails on 128-bit signed operands (MIN % -1 included) *)
 Theorem rem_total : forall fa a fb b,
-  in_domain fa a -> in_domain fb b -> small a = true -> small b = true -> b <> 0 ->
+  in_range fa a -> in_range fb b -> known_bin fa a fb b = false ->
+  small a = true -> small b = true -> b <> 0 ->
   exists v, model_case (Bin Rem) fa a fb b = Ok v /\ num_val v = emod a b.
 Proof. exact rem_total_proof. Qed.
 
@@ -77,7 +96,8 @@ Proof. exact lex_int_spec. Qed.
 
 (* integer/integer comparison is exact for every pair of forms *)
 Theorem int_cmp_exact : forall fa a fb b,
-  in_domain fa a -> in_domain fb b -> model_compare fa a fb b = Ok (exact_cmp a b).
+  in_range fa a -> in_range fb b -> known_bin fa a fb b = false ->
+  model_compare fa a fb b = Ok (exact_cmp a b).
 Proof. exact int_cmp_exact_proof. Qed.
 
 (* integer/float comparison (<, ==, > in both orders) is exact for every finite float and every
@@ -86,9 +106,58 @@ Proof. exact int_cmp_exact_proof. Qed.
    Proved by integer reasoning about round-to-nearest-even ([rne_int] models `x as f64`); the
    float's own decoding and the hardware comparison of two floats are modelled, not verified. *)
 Theorem int_float_cmp_exact : forall swap bits fi z m e,
-  in_domain fi z -> decode bits = FFin m e ->
+  in_range fi z -> known_operand (is_lit fi) z = false -> decode bits = FFin m e ->
   model_compare_float as_f64_exact swap bits fi z = Some (Ok (swap_cmp swap (exact_cmp_rat m e z))).
 Proof. exact int_float_cmp_exact_proof. Qed.
+
+(* ---- float % and //: the Euclidean convention on exact real numbers ----
+   a, b range over all binary64 values ([b64], Flocq's BinarySingleNaN at precision 53, emax 1024),
+   a finite, b finite and non-zero; A, B are the real numbers they denote.  [Rmod_e A B] and
+   [Zdiv_e A B] are the Euclidean remainder and (integer) quotient on the reals (FloatSpec).
+   [Brem_euclid] models f64::rem_euclid, [Bdiv_euclid] ops.rs::float_div_euclid, both built from
+   Flocq's correctly rounded operations and an exact fmod ([Bfmod], proved exact).
+
+   % : what is exact - the fmod, hence the whole result whenever the dividend is non-negative (or the
+       truncated remainder is); what is rounded - one addition r + |b| for a negative truncated
+       remainder.  So a % b is the round-to-nearest-even of the exact Euclidean remainder R, and
+       0 <= a % b <= |b| (|b| itself only when R rounds up to it). *)
+Theorem euclid_float_remainder : forall a b : b64,
+  is_finite a = true -> is_finite_strict b = true ->
+  let A := B2R a in let B := B2R b in
+  (A = IZR (Zdiv_e A B) * B + Rmod_e A B /\ 0 <= Rmod_e A B < Rabs B)%R /\
+  B2R (Brem_euclid a b) = round radix2 (FLT_exp (-1074) 53) ZnearestE (Rmod_e A B) /\
+  is_finite (Brem_euclid a b) = true /\
+  ((0 <= A)%R -> B2R (Brem_euclid a b) = Rmod_e A B) /\
+  (0 <= B2R (Brem_euclid a b) <= Rabs B)%R.
+Proof. exact euclid_float_remainder_proof. Qed.
+
+(* // : the subtraction a - r, the division by b and round() can each round (the final -/+ 1.0 too,
+   for huge quotients).  Whenever the exact Euclidean quotient Q is below 2^51 - 1 in magnitude the
+   combined error is below 1/2, round() removes it and a // b IS Q (and is finite).  For larger Q
+   (consecutive doubles are 1/2 or more apart there) a // b is within 2^-50 |Q| of Q whenever it
+   is finite; it is infinite only when a rounded intermediate overflows binary64. *)
+Theorem euclid_float_quotient : forall a b : b64,
+  is_finite a = true -> is_finite_strict b = true ->
+  let A := B2R a in let B := B2R b in let Q := Zdiv_e A B in
+  ((Z.abs Q < 2 ^ 51 - 1)%Z -> B2R (Bdiv_euclid a b) = IZR Q /\ is_finite (Bdiv_euclid a b) = true) /\
+  (is_finite (Bdiv_euclid a b) = true ->
+     (Rabs (B2R (Bdiv_euclid a b) - IZR Q) <= / 2 ^ 50 * Rabs (IZR Q))%R).
+Proof. exact euclid_float_quotient_proof. Qed.
+
+(* // and % agree with each other and with the documented convention: there are an integer Q and a
+   real R with a = Q * b + R exactly and 0 <= R < |b|, such that a % b is the correct rounding of R
+   (R itself whenever a >= 0) and a // b is Q (exactly below 2^51 - 1, within 2^-50 |Q| beyond). *)
+Theorem euclid_float_convention : forall a b : b64,
+  is_finite a = true -> is_finite_strict b = true ->
+  let A := B2R a in let B := B2R b in
+  exists (Q : Z) (R : R),
+    (A = IZR Q * B + R /\ 0 <= R < Rabs B)%R /\
+    (B2R (Brem_euclid a b) = round radix2 (FLT_exp (-1074) 53) ZnearestE R /\
+     ((0 <= A)%R -> B2R (Brem_euclid a b) = R) /\ is_finite (Brem_euclid a b) = true) /\
+    ((Z.abs Q < 2 ^ 51 - 1)%Z -> B2R (Bdiv_euclid a b) = IZR Q /\ is_finite (Bdiv_euclid a b) = true) /\
+    (is_finite (Bdiv_euclid a b) = true ->
+       (Rabs (B2R (Bdiv_euclid a b) - IZR Q) <= / 2 ^ 50 * Rabs (IZR Q))%R).
+Proof. exact euclid_float_convention_proof. Qed.
 
 (* the run-time oracle's capped power is Z.pow where it answers, and beyond 2^256 where it does not *)
 Theorem pow_capped_spec : forall a b, 0 <= b ->
@@ -101,7 +170,8 @@ Qed.
 
 (* non-vacuity: concrete non-trivial instances meet the hypotheses, at the edges of the range *)
 Example exact_or_error_witness :
-  in_domain FU128 (2 ^ 127 - 1) /\ in_domain FLit (- (2 ^ 127 - 1)) /\
+  in_range FU128 (2 ^ 127 - 1) /\ in_range FLit (- (2 ^ 127 - 1)) /\
+  known_bin FU128 (2 ^ 127 - 1) FLit (- (2 ^ 127 - 1)) = false /\
   model_case (Bin Add) FU128 (2 ^ 127 - 1) FLit (- (2 ^ 127 - 1)) = Ok (VInt I64 0) /\
   model_case (Bin Pow) FLit (-2) FU64 127 = Ok (VInt I128 (- 2 ^ 127)) /\
   model_case (Bin FloorDiv) FI128 (- 2 ^ 127) FI64 (-1) = Err E_InvalidOperation /\
@@ -110,6 +180,15 @@ Example exact_or_error_witness :
   model_case Neg FI128 (- 2 ^ 127 + 1) FLit 0 = Ok (VInt I128 (2 ^ 127 - 1)).
 Proof. vm_compute. repeat split; intros; discriminate. Qed.
 
+(* non-vacuity of the float statements: 1.0 // 0.1 = 9.0, 1.0 % 0.1 = 0.09999999999999995,
+   -7.0 % 2.0 = 1.0, -7.0 // 2.0 = -4.0 (computed by the kernel on the model) *)
+Example euclid_float_witness :
+  to_bits (Bdiv_euclid (of_bits 4607182418800017408) (of_bits 4591870180066957722)) = 4621256167635550208 /\
+  to_bits (Brem_euclid (of_bits 4607182418800017408) (of_bits 4591870180066957722)) = 4591870180066957718 /\
+  to_bits (Brem_euclid (of_bits 13842939354630062080) (of_bits 4611686018427387904)) = 4607182418800017408 /\
+  to_bits (Bdiv_euclid (of_bits 13842939354630062080) (of_bits 4611686018427387904)) = 13839561654909534208.
+Proof. vm_compute. repeat split. Qed.
+
 (* what the fix: commits repaired: the model of the code as it was violates the statements *)
 Example wrap_refuted_before_fix :
   model_case_before_fix (Bin Add) FU128 (2 ^ 128 - 1) FU128 (2 ^ 128 - 1) = Ok (VInt I64 (-2)).
@@ -117,21 +196,23 @@ Proof. vm_compute. reflexivity. Qed.
 Example rem_min_refuted_before_fix :
   model_case_before_fix (Bin Rem) FI128 (- 2 ^ 127) FI64 (-1) = Err E_InvalidOperation.
 Proof. vm_compute. reflexivity. Qed.
-
 Example int_float_eq_refuted_before_fix :
   eq_float_int as_f64_exact_before_fix (decode 4890909195324358656) (VInt I64 (2 ^ 63 - 1)) = Some true /\
   eq_float_int as_f64_exact (decode 4890909195324358656) (VInt I64 (2 ^ 63 - 1)) = Some false.
 Proof. vm_compute. split; reflexivity. Qed.
+Example pow_exponent_refuted_before_fix :
+  model_case_before_fix (Bin Pow) FI64 1 FI64 (2 ^ 32) = Err E_InvalidOperation /\
+  model_case (Bin Pow) FI64 1 FI64 (2 ^ 32) = Ok (VInt I64 1) /\
+  model_case (Bin Pow) FI64 (-1) FI128 (2 ^ 127 - 1) = Ok (VInt I64 (-1)).
+Proof. vm_compute. repeat split; reflexivity. Qed.
 
-(* the listed known findings are violations in the model as well (hence the exclusions above) *)
+(* the listed known finding is a violation in the model as well (hence the exclusion above) *)
 Example neg_2p127_known_refuted :
   model_case Neg FLit (2 ^ 127) FLit 0 = Ok (VInt U128 (2 ^ 127)) /\
   model_case (Bin Add) FLit (- 2 ^ 127) FLit 0 = Err E_InvalidOperation.
 Proof. vm_compute. split; reflexivity. Qed.
-Example pow_exponent_known_refuted :
-  model_case (Bin Pow) FI64 1 FI64 (2 ^ 32) = Err E_InvalidOperation /\ exact Pow 1 (2 ^ 32) = Some 1.
-Proof. split; [vm_compute; reflexivity|]. cbn [exact]. rewrite Z.pow_1_l by lia. reflexivity. Qed.
 
+Print Assumptions known_characterised.
 Print Assumptions int_op_exact_or_error.
 Print Assumptions width_independent.
 Print Assumptions neg_exact.
@@ -143,3 +224,6 @@ Print Assumptions literal_value.
 Print Assumptions int_cmp_exact.
 Print Assumptions int_float_cmp_exact.
 Print Assumptions pow_capped_spec.
+Print Assumptions euclid_float_remainder.
+Print Assumptions euclid_float_quotient.
+Print Assumptions euclid_float_convention.
